@@ -7,7 +7,10 @@
    [scan c w log = Some (tj, b, D)]: since the last restart the most recent successful acceptance
    for w was at time tj for check block b, and D are the sufficiently confirmed events for w
    delivered after it, each flagged "new" when no confirmed event with the same identity
-   (work id, tx hash, transmit block) had been delivered before.  [within c tj t]: t is inside the
+   (work id, tx hash, transmit block) had been delivered before while the node could hold a record
+   for the work id (a delivery that arrived before the report was accepted, or after the window of
+   the last possible write had closed, does not count: a later poll returning the event again is a
+   new sighting).  [within c tj t]: t is inside the
    lockout window that started at tj.  Histories: any length, any work ids, any configuration;
    times non-negative and non-decreasing (wf_times). *)
 From Verif Require Import Base.Util Model.Coordinator Proofs.CoordinatorProofs.
